@@ -203,7 +203,7 @@ static int drv_enum(vop_t *ops, int max)
         }
         ADD(6, l, 0, 0, 0); ADD(7, l, 0, 0, 0); ADD(12, l, 0, 0, 0);
         for (m = 1; m <= NL; m++) if (m != l) ADD(8, l, m, 0, 0);
-        for (m = l + 1; m <= NL; m++) ADD(9, l, m, 0, 0);
+        for (m = l; m <= NL; m++) ADD(9, l, m, 0, 0);      /* m == l: a list swapped with itself */
         for (rv = 0; rv < 2; rv++) for (st = 0; st <= slen[l]; st++) {
             ADD(11, l, rv, st, 1);
             if (PROBES) ADD(11, l, rv, st, 0);
@@ -231,7 +231,7 @@ static int drv_random(unsigned long (*rnd)(void), vop_t *op)
     else if (r < 68) { op->k = 6; op->a[0] = l; }
     else if (r < 74) { op->k = 7; op->a[0] = l; }
     else if (r < 79 && m != l) { op->k = 8; op->a[0] = l; op->a[1] = m; }
-    else if (r < 84 && m != l) { op->k = 9; op->a[0] = l < m ? l : m; op->a[1] = l < m ? m : l; }
+    else if (r < 84 ) { op->k = 9; op->a[0] = l < m ? l : m; op->a[1] = l < m ? m : l; }
     else if (r < 89) { op->k = 10; op->a[0] = l; op->a[1] = (int)(rnd() % (unsigned)(MAXV + 1)); op->a[2] = (int)(rnd() & 1); }
     else if (r < 95) { op->k = 11; op->a[0] = l; op->a[1] = (int)(rnd() & 1); op->a[2] = (rnd() & 1) ? 0 : (int)(rnd() % (unsigned)(slen[l] + 1)); op->a[3] = (rnd() % 4 == 0); }
     else if (r < 97) { op->k = 12; op->a[0] = l; }
